@@ -94,6 +94,7 @@ class Ctx:
     def case_id(self, kind, idx, **extra):
         d = {"kind": kind, "idx": int(idx), "seed": self.seed}
         d.update(extra)
+        self.last_case = d
         return d
 
     # ---- accounting
@@ -188,6 +189,15 @@ class fp_watch:
         # numpy.seterr(all="raise") would have got instead of a result: the floating-point warnings of this request
         self.tripped = sorted({w.category.__name__ + ": " + str(w.message)[:80] for w in self.log
                                if issubclass(w.category, RuntimeWarning)})
+        # deprecation-class warnings raised from the library's own files: hidden by Python's default filters, an
+        # exception for every caller running with warnings as errors - and a result that disappears with the next
+        # release of the dependency.  The unchanged tree emits none, on any input of any check.
+        dep = sorted({w.category.__name__ + ": " + str(w.message)[:100] for w in self.log
+                      if issubclass(w.category, (DeprecationWarning, PendingDeprecationWarning, FutureWarning))
+                      and "traffic_weaver" in str(getattr(w, "filename", ""))})
+        if dep and a[0] is None:
+            self.ctx.violation("deprecation_warning_raised_inside_the_library", getattr(self.ctx, "last_case", None) or {"kind": "?"},
+                               {"warnings": dep[:4]})
         return self.cm.__exit__(*a)
 
     def saw(self, category):
